@@ -330,9 +330,24 @@ func (c *Ctx) afterJoin(in ssa.Instruction) string {
 	return ""
 }
 
+// errRet: the value a return yields for the function's last result of type error (wherever it stands).
+func errRet(r *ssa.Return) ssa.Value {
+	sig := r.Parent().Signature
+	for i := sig.Results().Len() - 1; i >= 0; i-- {
+		if isErrorType(sig.Results().At(i).Type()) {
+			return retValue(r, i)
+		}
+	}
+	return ssa.NewConst(nil, types.Typ[types.UntypedNil])
+}
+
 // retValue resolves the value a return yields for result i, looking through the
 // result cells go/ssa introduces when the function has defers.
 func retValue(r *ssa.Return, i int) ssa.Value {
+	if i < 0 || i >= len(r.Results) {
+		// the signature changed: nothing at this position (callers treat a constant nil as "no value")
+		return ssa.NewConst(nil, types.Typ[types.UntypedNil])
+	}
 	v := r.Results[i]
 	if u, ok := v.(*ssa.UnOp); ok && u.Op == token.MUL {
 		if al, ok := u.X.(*ssa.Alloc); ok {
